@@ -247,7 +247,7 @@ Proof.
   - apply in_nn_scale; [lra|exact H].
   - apply in_soc_scale; [lra|exact H].
   - apply in_exp_dual_scale; assumption.
-  - destruct (alpha_pq a) as [[p q]|] eqn:E; [|exact H].
+  - destruct (alpha_pq a) as [[p q]|] eqn:E; [|apply in_pow_real_dual_scale; assumption].
     apply alpha_pq_spec in E. apply in_pow_dual_scale; [lia|exact Ht|exact H].
   - destruct (alphas_pq al) as [[ps q]|] eqn:E; [|exact H].
     apply alphas_pq_spec in E. destruct E as (E1 & _ & E3 & _).
